@@ -3,31 +3,31 @@ import RQ.Model.Path
 namespace RQ
 open RQ
 
-def lastPiece (body : Bytes) : Bytes := (body.reverse.takeWhile (· ≠ SEP)).reverse
+def rtLastPiece (body : Bytes) : Bytes := (body.reverse.takeWhile (· ≠ SEP)).reverse
 
 /-- `trimRight keep` has nothing to remove -/
 def Trimmed (keep : Nat) (bs : Bytes) : Prop :=
-  bs.length ≤ keep ∨ (compOfPiece (lastPiece (bs.drop keep))).isSome = true
+  bs.length ≤ keep ∨ (compOfPiece (rtLastPiece (bs.drop keep))).isSome = true
 
-theorem trimRight_succ (keep f : Nat) (bs : Bytes) : trimRight keep (f+1) bs =
+theorem rtTrimRight_succ (keep f : Nat) (bs : Bytes) : trimRight keep (f+1) bs =
     if bs.length ≤ keep then bs
     else
-      match compOfPiece (lastPiece (bs.drop keep)) with
+      match compOfPiece (rtLastPiece (bs.drop keep)) with
       | some _ => bs
-      | none => trimRight keep f (bs.take (bs.length - ((lastPiece (bs.drop keep)).length +
-          (if (lastPiece (bs.drop keep)).length < (bs.drop keep).length then 1 else 0)))) := by
+      | none => trimRight keep f (bs.take (bs.length - ((rtLastPiece (bs.drop keep)).length +
+          (if (rtLastPiece (bs.drop keep)).length < (bs.drop keep).length then 1 else 0)))) := by
   rfl
 
 theorem trimRight_of_Trimmed (keep f : Nat) (bs : Bytes) (h : Trimmed keep bs) : trimRight keep f bs = bs := by
   cases f with
   | zero => rfl
   | succ f =>
-    rw [trimRight_succ]
+    rw [rtTrimRight_succ]
     rcases h with h | h
     · simp [h]
     · split
       · rfl
-      · cases e : compOfPiece (lastPiece (List.drop keep bs)) with
+      · cases e : compOfPiece (rtLastPiece (List.drop keep bs)) with
         | none => rw [e] at h; cases h
         | some c => rfl
 
@@ -40,8 +40,8 @@ theorem length_takeWhile_le' (p : UInt8 → Bool) (l : Bytes) : (l.takeWhile p).
     · simp; omega
     · simp
 
-theorem lastPiece_length_le (body : Bytes) : (lastPiece body).length ≤ body.length := by
-  unfold lastPiece
+theorem rtLastPiece_length_le (body : Bytes) : (rtLastPiece body).length ≤ body.length := by
+  unfold rtLastPiece
   rw [List.length_reverse]
   have := length_takeWhile_le' (fun x => decide (x ≠ SEP)) body.reverse
   simpa using this
@@ -53,20 +53,20 @@ theorem trimRight_spec (keep : Nat) : ∀ (f : Nat) (bs : Bytes), bs.length < f 
   | zero => intro bs h; omega
   | succ f ih =>
     intro bs hf
-    rw [trimRight_succ]
+    rw [rtTrimRight_succ]
     by_cases hk : bs.length ≤ keep
     · simp only [hk, if_true]
       exact ⟨Or.inl hk, bs.length, by omega, by simp⟩
     · simp only [hk, if_false]
-      cases e : compOfPiece (lastPiece (List.drop keep bs)) with
+      cases e : compOfPiece (rtLastPiece (List.drop keep bs)) with
       | some c =>
         simp only []
         exact ⟨Or.inr (by rw [e]; rfl), bs.length, by omega, by simp⟩
       | none =>
         simp only []
-        have hl := lastPiece_length_le (bs.drop keep)
+        have hl := rtLastPiece_length_le (bs.drop keep)
         have hd : (bs.drop keep).length = bs.length - keep := by simp
-        generalize hlp : lastPiece (List.drop keep bs) = lp at *
+        generalize hlp : rtLastPiece (List.drop keep bs) = lp at *
         -- the amount removed is between 1 and bs.length - keep
         have hamt : 1 ≤ lp.length + (if lp.length < (bs.drop keep).length then 1 else 0) ∧
             lp.length + (if lp.length < (bs.drop keep).length then 1 else 0) ≤ bs.length - keep := by
@@ -87,8 +87,8 @@ theorem takeWhile_append_stop (p : UInt8 → Bool) (A B : Bytes) (s : UInt8) (hs
     · rw [ih]
     · rfl
 
-theorem lastPiece_sep (l1 l2 : Bytes) : lastPiece (l1 ++ SEP :: l2) = lastPiece l2 := by
-  unfold lastPiece
+theorem lastPiece_sep (l1 l2 : Bytes) : rtLastPiece (l1 ++ SEP :: l2) = rtLastPiece l2 := by
+  unfold rtLastPiece
   have : (l1 ++ SEP :: l2).reverse = l2.reverse ++ SEP :: l1.reverse := by simp
   rw [this, takeWhile_append_stop _ _ _ _ (by simp)]
 
@@ -98,7 +98,7 @@ def keepOf (x : Bytes) : Nat :=
   | b :: _ => if b = SEP then 1 else if includeCurDir x then 1 else 0
   | [] => 0
 
-theorem stripPath_zero (raw : Bytes) : stripPath 0 raw = trimRight (keepOf raw) (raw.length + 1) raw := by
+theorem stripPath_zero_trim (raw : Bytes) : stripPath 0 raw = trimRight (keepOf raw) (raw.length + 1) raw := by
   unfold stripPath dropComps keepOf
   simp only [Bool.false_eq_true, if_false]
   cases raw <;> rfl
@@ -142,7 +142,7 @@ theorem Trimmed_keepOf (x : Bytes) (h : Trimmed 0 x) : Trimmed (keepOf x) x := b
           right; simpa using h
 
 theorem stripPath_fix_of_Trimmed (x : Bytes) (h : Trimmed 0 x) : stripPath 0 x = x := by
-  rw [stripPath_zero]
+  rw [stripPath_zero_trim]
   exact trimRight_of_Trimmed _ _ _ (Trimmed_keepOf x h)
 
 theorem stripPath_succ_form (n : Nat) (raw : Bytes) : ∃ y, stripPath (n+1) raw = trimRight 0 (y.length + 1) y := by
@@ -164,10 +164,10 @@ theorem stripPath_idem (n : Nat) (raw : Bytes) : stripPath 0 (stripPath n raw) =
     rw [e]
     exact stripPath_fix_of_Trimmed _ (trimRight_spec 0 _ y (by omega)).1
   | zero =>
-    rw [stripPath_zero raw]
+    rw [stripPath_zero_trim raw]
     obtain ⟨ht, m, hm, e⟩ := trimRight_spec (keepOf raw) (raw.length + 1) raw (by omega)
     generalize trimRight (keepOf raw) (raw.length + 1) raw = x at *
-    rw [stripPath_zero]
+    rw [stripPath_zero_trim]
     apply trimRight_of_Trimmed
     cases raw with
     | nil => subst e; simpa [keepOf] using ht
